@@ -514,7 +514,9 @@ def apply_edit(N, st):
 # ----------------------------------------------------------------------------- generation
 
 INT_LABELS = [lambda k: list(range(k)), lambda k: [7 * i + 3 for i in range(k)][::-1], lambda k: [-2, 0, 5, 11, 3, 8, 1, 9][:k]]
-STR_LABELS = [lambda k: list("abcdefgh")[:k], lambda k: [1, "a", 2, "b", 3, "c", 4, "d"][:k]]
+STR_LABELS = [lambda k: list("abcdefgh")[:k], lambda k: [1, "a", 2, "b", 3, "c", 4, "d"][:k],
+              # labels whose str() coincide or contain separators: any text encoding of a node set must not confuse them
+              lambda k: [1, "1", 2, "2", "1,2", 12, "12", "a,b"][:k], lambda k: ["a", "b", "a,b", "a b", "ab", "", " ", ","][:k]]
 TUPLE_LABELS = [lambda k: [(i // 2, i % 2) for i in range(k)], lambda k: [("a", i) for i in range(k)], lambda k: [(i,) if i % 2 else (i, i + 1, "z") for i in range(k)]]
 EXOTIC_LABELS = [lambda k: [datetime.date(2024, 1, 1 + i) for i in range(k)], lambda k: [list(Colour)[i % 3] if i < 3 else i for i in range(k)],
                  lambda k: [frozenset([i, i + 1]) for i in range(k)], lambda k: [b"x%d" % i for i in range(k)], lambda k: [b"%d" % (12 + i) for i in range(k)]]
